@@ -196,8 +196,42 @@ def _custom_converters():
                 return None
             return WrongTypeError(self.expected(), val)
 
+    class IncInt(Converter):
+        def expected(self, plural=False):
+            return 'incremented ints' if plural else 'an incremented int'
+
+        def into_data(self, val):
+            return val - 1 if isinstance(val, int) and not isinstance(val, bool) else val
+
+        def try_convert(self, val):
+            if isinstance(val, int) and not isinstance(val, bool):
+                return val + 1
+            raise ParseInterrupt()
+
+        def collect_errors(self, val):
+            if isinstance(val, int) and not isinstance(val, bool):
+                return None
+            return WrongTypeError(self.expected(), val)
+
+    class TagStr(Converter):
+        def expected(self, plural=False):
+            return 'tagged strings' if plural else 'a tagged string'
+
+        def into_data(self, val):
+            return val[1:] if isinstance(val, str) and val.startswith('#') else val
+
+        def try_convert(self, val):
+            if isinstance(val, str):
+                return '#' + val
+            raise ParseInterrupt()
+
+        def collect_errors(self, val):
+            if isinstance(val, str):
+                return None
+            return WrongTypeError(self.expected(), val)
+
     _CONV_CACHE.update(DoubleInt=DoubleInt(), UpperStr=UpperStr(), OpaqueConv=OpaqueConv(),
-                       NegFloat=NegFloat())
+                       NegFloat=NegFloat(), IncInt=IncInt(), TagStr=TagStr())
     return _CONV_CACHE
 
 
@@ -222,6 +256,18 @@ def h_opaque(ty, args, *, handlers):
 def h_neg_float(ty, args, *, handlers):
     if ty is float and not args:
         return _custom_converters()['NegFloat']
+    return NotImplemented
+
+
+def h_inc_int(ty, args, *, handlers):
+    if ty is int and not args:
+        return _custom_converters()['IncInt']
+    return NotImplemented
+
+
+def h_tag_str(ty, args, *, handlers):
+    if ty is str and not args:
+        return _custom_converters()['TagStr']
     return NotImplemented
 
 
@@ -273,7 +319,7 @@ class FaultyHandler:
 
 HANDLERS: t.Dict[str, t.Any] = {
     'dbl_int': h_dbl_int, 'upper_str': h_upper_str, 'opaque': h_opaque, 'neg_float': h_neg_float,
-    'defer_ni': h_defer_ni, 'defer_nie': h_defer_nie,
+    'defer_ni': h_defer_ni, 'defer_nie': h_defer_nie, 'inc_int': h_inc_int, 'tag_str': h_tag_str,
 }
 HANDLER_MAP_CONVS = {'int': 'DoubleInt', 'str': 'UpperStr', 'Opaque': 'OpaqueConv', 'float': 'NegFloat'}
 
@@ -618,8 +664,9 @@ def sample_value(ast, world: World, rng, valid_p=0.8, alphabet='mixed', depth=0)
     if k == 'vol':
         return rec(ast[1]) if rng.random() < 0.5 else [rec(ast[1]) for _ in range(n_items())]
     if k == 'range':
-        return rng.choice([{'start': 0, 'end': 10, 'n': 11}, [0, 4, 3], {'start': 0, 'end': 6, 'step': 2},
-                           {'start': 1, 'end': 2}, {'start': 0.0, 'end': 1.0, 'n': 5}])
+        if ast[1] == ['s', 'float']:
+            return rng.choice([{'start': 0.0, 'end': 1.0, 'n': 5}, {'start': 0.5, 'end': 2.5, 'step': 0.5}, [0.0, 3.0, 4]])
+        return rng.choice([{'start': 0, 'end': 10, 'n': 11}, [0, 4, 3], {'start': 0, 'end': 6, 'step': 2}])
     if k == 'enum':
         spec = world.enum_specs[ast[1]]
         return dec(rng.choice(spec['members'])[1])
@@ -808,7 +855,7 @@ FIELD_NAMES = ['x', 'y', 'z', 'w', 'foo_bar', 'val']
 
 
 def gen_class_spec(rng, world: World, name, kinds, scalars, generic_p=0.25, inherit_p=0.2,
-                   custom_specs=(None,), tuple_p=0.3):
+                   custom_specs=(None,), tuple_p=0.3, nest_p=0.0):
     tv = []
     if rng.random() < generic_p:
         tv = ['T'] if rng.random() < 0.7 else ['T', 'U']
@@ -840,6 +887,11 @@ def gen_class_spec(rng, world: World, name, kinds, scalars, generic_p=0.25, inhe
         if tv and (i == 0 or rng.random() < 0.4):
             tvn = tv[min(i, len(tv) - 1)] if i < len(tv) else rng.choice(tv)
             ft = rng.choice([['tv', tvn], ['list', ['tv', tvn]], ['opt', ['tv', tvn]], ['tv', tvn]])
+        elif nest_p and rng.random() < nest_p and any(not sp.get('tv') for sp in world.class_specs.values()):
+            inner = rng.choice([nm for (nm, sp) in world.class_specs.items() if not sp.get('tv')])
+            ft = rng.choice([['cls', inner], ['cls', inner], ['list', ['cls', inner]], ['opt', ['cls', inner]]])
+        elif nest_p and rng.random() < 0.4:
+            ft = ['s', rng.choice(['int', 'str', 'int', 'float'])]
         else:
             ft = gen_type(rng, world, inner_kinds, scalars, depth=1, max_depth=3, top=False)
         f = {'n': n, 't': ft}
